@@ -164,14 +164,14 @@ def stratified(cases, rng, per_class, extra, fine):
 def gen_cases(ctx, out):
     thorough = ctx.tier == "thorough"
     # (cfg, family, TLC workers, simulate num, per-class quota, extra)
-    plan = [("Group.gen.life1.cfg", "life1", 4, 0, 1, 6), ("Group.gen.life2.cfg", "life2", 3, 0, 1, 4),
-            ("Group.gen.faults.cfg", "faults", 3, 0, 1, 4), ("Group.gen.resume.cfg", "resume", 2, 0, 1, 6)]
+    plan = [("Group.gen.life1.cfg", "life1", 4, 0, 2, 6), ("Group.gen.life2.cfg", "life2", 3, 0, 2, 4),
+            ("Group.gen.faults.cfg", "faults", 3, 0, 2, 4), ("Group.gen.resume.cfg", "resume", 2, 0, 2, 6)]
     if thorough:
-        plan = [("Group.gen.life1.cfg", "life1", 4, 0, 6, 150), ("Group.gen.life2.cfg", "life2", 3, 0, 6, 100),
-                ("Group.gen.faults.cfg", "faults", 3, 0, 6, 100), ("Group.gen.resume.cfg", "resume", 2, 0, 6, 100),
-                ("Group.gen.two.cfg", "two", 8, 0, 6, 250), ("Group.sim.big.cfg", "simbig", 1, 3000, 3, 250)]
+        plan = [("Group.gen.life1.cfg", "life1", 4, 0, 6, 300), ("Group.gen.life2.cfg", "life2", 3, 0, 6, 200),
+                ("Group.gen.faults.cfg", "faults", 3, 0, 6, 400), ("Group.gen.resume.cfg", "resume", 2, 0, 6, 250),
+                ("Group.gen.two.cfg", "two", 8, 0, 6, 700), ("Group.sim.big.cfg", "simbig", 1, 6000, 3, 700)]
     else:
-        plan += [("Group.gen.twoq.cfg", "two", 6, 0, 1, 8), ("Group.sim.big.cfg", "simbig", 1, 150, 0, 10)]
+        plan += [("Group.gen.twoq.cfg", "two", 6, 0, 2, 8), ("Group.sim.big.cfg", "simbig", 1, 150, 0, 12)]
     with concurrent.futures.ThreadPoolExecutor(max_workers=6) as ex:
         futs = [ex.submit(gen_one, ctx, cfg, w, sim, ctx.seed) for cfg, _, w, sim, _, _ in plan]
         res = [f.result() for f in futs]
